@@ -66,7 +66,10 @@ func (d *Dir) IsDir() bool {
 
 // getNodes return nodes for directory
 func (d *Dir) getNodes() []os.FileInfo {
-	return d.nodes
+	d.mu.RLock()
+	defer d.mu.RUnlock()
+	// a copy: removeNodeByName splices d.nodes in place
+	return append([]os.FileInfo{}, d.nodes...)
 }
 
 // getNodes return nodes for directory
